@@ -181,6 +181,51 @@ def build(S, tier):
         S.prove(f"{label}#cover.loop_exit_path_exists", n_exit >= 1 and any(q.status == "cut" for q in paths), kind="cover",
                 why=f"{n_exit} exit paths, {sum(1 for q in paths if q.status == 'cut')} preservation paths")
 
+    # ------------------------------------------------------------------ per-coordinate scaling masses on explicit atoms: ONE global minimum
+    def run_explicit(I):
+        from pyvc.models.explicit_atoms import AtomsExplicit
+        from pyvc.values import Tensor
+
+        def skip_loop(I_, node, frame):
+            mc_ = frame.locals["self"]
+            zt = Tensor((3, 3), [I_.path.fresh(f"zeta{j}") for j in range(9)])
+            for e in zt.data:
+                I_.path.assume(z3.And(e.t >= -1, e.t < 1))
+            mc_.attrs["zeta"] = zt
+            return
+            yield
+        I.loop_contracts[loop_key] = skip_loop            # the rejection loop is the subject of the pointwise scenarios above
+        at = AtomsExplicit(I, 3)
+        T, d, pw_ = I.path.fresh("T"), I.path.fresh("delta"), I.path.fresh("power")
+        I.path.assume(z3.And(T.t > 0, d.t > 0))
+        mc = I.call(I.get_class(FB), [at, d], {"temperature": T, "seed": 1})
+        sm = Tensor((3, 3), [I.path.fresh(f"scaling_mass{j}") for j in range(9)])
+        for e in sm.data:
+            I.path.assume(e.t > 0)
+        I.call(I.getattr(mc, "update_masses"), [sm], {})
+        I.setattr(mc, "masses_scaling_power", pw_)
+        P0 = at.positions.copy()
+        I.call(I.getattr(mc, "step"), [], {})
+        return dict(at=at, P0=P0, sm=sm, d=d, pw=pw_, zeta=mc.attrs["zeta"])
+
+    label = f"{FB}.step[3 explicit atoms, per-coordinate scaling masses]"
+    for i, p in enumerate(S.explore(run_explicit, label, max_paths=60)):
+        S.adopt(p, prefix="[explicit]")
+        if p.status != "return":
+            if p.status == "raise":
+                S.prove(f"{label}#noraise@{i}", False, kind="noraise", why=f"raises {p.exc!r}")
+            continue
+        v = p.value
+        ms = [R(x) for x in v["sm"].data]
+        mmin = ms[0]
+        for x in ms[1:]:
+            mmin = z3.If(x < mmin, x, mmin)
+        cl = []
+        for j in range(9):
+            disp = R(v["at"].positions.data[j]) - R(v["P0"].data[j])
+            cl.append(disp == R(v["zeta"].data[j]) * v["d"].t * F_pow(mmin / ms[j], v["pw"].t))
+        S.prove(f"{label}#ensures.displacement_is_zeta_delta_times_global_min_mass_ratio_to_the_power@{i}", z3.And(cl), hyps=p.pc)
+
     # ------------------------------------------------------------------ lemmas about the acceptance function
     z, g = z3.Real("zeta_l"), z3.Real("gamma_l")
     den, P = spec_P(z, g)
